@@ -228,7 +228,7 @@ func correspondence(c *hx.Ctx) {
 	}
 	codecCases(c, r.Fork()) // inode and directory-table codecs against the real encoders / decoders
 	// ---- inode reference arithmetic -------------------------------------------------------------------
-	n = c.N(200, 5000)
+	n = c.N(200, 3000)
 	for i := 0; i < n; i++ {
 		id := fmt.Sprintf("d/refs/%d", i)
 		rr := r.Fork()
@@ -263,7 +263,7 @@ func correspondence(c *hx.Ctx) {
 		c.Stat("corr.refs")
 	}
 	// ---- superblock codec ------------------------------------------------------------------------------
-	n = c.N(100, 2500)
+	n = c.N(100, 1500)
 	for i := 0; i < n; i++ {
 		id := fmt.Sprintf("d/sb/%d", i)
 		rr := r.Fork()
